@@ -22,6 +22,10 @@ struct ValidationContext {
     /// CONST names.
     #[allow(dead_code)]
     const_names: BTreeSet<String>,
+    /// Every name that may legitimately stand in call position besides functions,
+    /// externals and built-ins: list names (`list(3)`) and variables, temporaries and
+    /// parameters (which may hold a function's divert target).
+    callable_value_names: BTreeSet<String>,
 }
 
 impl ValidationContext {
@@ -74,7 +78,22 @@ impl ValidationContext {
             }
         }
 
+        let mut callable_value_names: BTreeSet<String> = global_var_names.clone();
+        for list_decl in story.list_declarations() {
+            callable_value_names.insert(list_decl.name.clone());
+        }
+        callable_value_names.extend(collect_temps_from_nodes(story.root()));
+        for flow in story.flows() {
+            callable_value_names.extend(flow.parameters.iter().cloned());
+            callable_value_names.extend(collect_temps_from_nodes(&flow.nodes));
+            for stitch in &flow.children {
+                callable_value_names.extend(stitch.parameters.iter().cloned());
+                callable_value_names.extend(collect_temps_from_nodes(&stitch.nodes));
+            }
+        }
+
         Self {
+            callable_value_names,
             valid_targets,
             flow_names,
             function_names,
